@@ -100,6 +100,42 @@ def Lab.run : Lab → List LabEv → List Nat
   | l, e :: es => (l.step e).2 ++ Lab.run (l.step e).1 es
 
 
+/-! ### (b') labels after an administrator repositioned the counter (`set-nextlabel`): `NextLabel ≠ 0` -/
+
+structure Nx where
+  next : Nat
+  pNext : Nat     -- the persisted next-label key
+  deriving DecidableEq, Repr
+
+/-- `SetNextLabelStart(n)` -/
+def Nx.set (n : Nat) : Nx := ⟨n, n⟩
+
+/-- `newLabel` (cleave, split without caller-supplied labels) -/
+def Nx.alloc1 (x : Nx) : Nx × Nat :=
+  if Gen.nextLabelPersistsIssued then (⟨x.next + 1, x.next + 1⟩, x.next + 1)
+  else (⟨x.next + 1, x.next⟩, x.next + 1)   -- a shape that persists before advancing
+
+/-- `newLabels(n)` (POST nextlabel/n), n ≥ 1 -/
+def Nx.allocN (x : Nx) (n : Nat) : Nx × Nat × Nat := (⟨x.next + n, x.next + n⟩, x.next + 1, x.next + n)
+
+/-- restart or crash: the counter is reloaded from its key -/
+def Nx.restart (x : Nx) : Nx := ⟨x.pNext, x.pNext⟩
+
+inductive NxEv where
+  | one
+  | many (n : Nat)     -- n+1 labels
+  | restart
+  deriving Repr
+
+def Nx.step (x : Nx) : NxEv → Nx × List Nat
+  | .one => let r := x.alloc1; (r.1, [r.2])
+  | .many n => let r := x.allocN (n + 1); (r.1, (List.range (n + 1)).map (· + r.2.1))
+  | .restart => (x.restart, [])
+
+def Nx.run : Nx → List NxEv → List Nat
+  | _, [] => []
+  | x, e :: es => (x.step e).2 ++ Nx.run (x.step e).1 es
+
 /-! ### (c) version ids: persistence order and the loader's repair -/
 
 /-- what the store holds: the version-id counter (`newIDs` key) and the largest version id in the stored
